@@ -8,7 +8,10 @@ from ..oracles import tm_exact
 
 RULE = ("positions (lat in [-80, 84], lon in [-180, 180)) x ellipsoid (4 shipped + random a, 1/f in [150, 400]) x "
         "projection (UTM, ISG, random Projection objects) x zone request (automatic / explicit zone with CM within "
-        "30 deg) x angle notation (float + 5 classes); non-trivial = |lon - CM| > 0.01 deg and |lat| > 0.01 deg")
+        "30 deg, across the antimeridian too) x representation (float, Python int, numpy float64, the 5 angle classes, latitude and "
+        "longitude in different ones; defaults left out / keywords); custom projections: tidy ones and arbitrary floats (k0 on both "
+        "sides of 1, fractional zone widths, any first meridian, negative false origins); all zone limits +-1..3 ulp enumerated; "
+        "non-trivial = |lon - CM| > 0.01 deg and |lat| > 0.01 deg")
 ASSUMPTIONS = ["oracle: exact TM by analytic continuation of the meridian arc (gvp/oracles/tm_exact.py), accurate to "
                "< 1e-8 m in the domain; self-tested against frozen 40-digit values and the spherical closed form",
                "automatic zoning is exercised only where zones 1..60 (or the ten ISG zones) cover the longitude",
